@@ -1564,3 +1564,90 @@ func c09Antisymmetric(c *Ctx, p *Prog) {
 	}
 	c.Floor(R, "comparators stored into Field.cmp", n, 2)
 }
+
+// c07SpaceAgrees (C07/R19): what the tokenizer skips as a space is what ends a bare word: the space recogniser
+// (func(string) int calling unicode.IsSpace) is evaluated for sample first bytes — comparisons of that byte with
+// constants and unicode.IsSpace itself are answered from the sample — and must return a positive width exactly for the
+// bytes unicode.IsSpace accepts. A byte that ends a word but is not skipped makes the tokenizer loop for ever.
+func c07SpaceAgrees(c *Ctx, p *Prog) {
+	const R = "C07/R19"
+	var fn *ssa.Function
+	for _, f := range p.Funcs("benchproc/internal/parse") {
+		sig := f.Signature
+		if f.Parent() == nil && sig.Recv() == nil && sig.Params().Len() == 1 && sig.Results().Len() == 1 && isString(sig.Params().At(0).Type()) && isInteger(sig.Results().At(0).Type()) && len(callsIn(f, "unicode", "", "IsSpace")) > 0 {
+			fn = f
+		}
+	}
+	if fn == nil {
+		c.Undecided(R, "anchor:space recogniser", "", "no func(string) int calling unicode.IsSpace in the tokenizer's package")
+		return
+	}
+	site := p.pos(fn.Pos())
+	for _, sample := range []struct {
+		b     int64
+		space bool
+	}{{' ', true}, {'\t', true}, {'\n', true}, {'\v', true}, {'\f', true}, {'\r', true}, {'a', false}, {':', false}, {'(', false}, {'0', false}} {
+		sample := sample
+		decide := func(s *Sym) (bool, bool) {
+			if s.Op == "call" && strings.HasPrefix(s.Name, "unicode.IsSpace") {
+				return sample.space, true
+			}
+			if s.Op != "binop" || len(s.Args) != 2 {
+				return false, false
+			}
+			isByte := func(x *Sym) bool {
+				for x.Op == "convert" && len(x.Args) == 1 {
+					x = x.Args[0]
+				}
+				return (x.Op == "load" || x.Op == "index") && x.Type != nil && isInteger(x.Type) && strings.Contains(x.String(), "param:")
+			}
+			var a, b int64
+			switch {
+			case isByte(s.Args[0]) && s.Args[1].isConst() && s.Args[1].Const != nil && s.Args[1].Const.Kind() == constant.Int:
+				a = sample.b
+				b, _ = constant.Int64Val(s.Args[1].Const)
+			case isByte(s.Args[1]) && s.Args[0].isConst() && s.Args[0].Const != nil && s.Args[0].Const.Kind() == constant.Int:
+				a, _ = constant.Int64Val(s.Args[0].Const)
+				b = sample.b
+			default:
+				return false, false
+			}
+			switch s.Tok {
+			case token.EQL:
+				return a == b, true
+			case token.NEQ:
+				return a != b, true
+			case token.LSS:
+				return a < b, true
+			case token.LEQ:
+				return a <= b, true
+			case token.GTR:
+				return a > b, true
+			case token.GEQ:
+				return a >= b, true
+			}
+			return false, false
+		}
+		outs, why := e6Enumerate(func() *e6Interp {
+			return &e6Interp{PureCall: func(f *types.Func) bool { return true }, Decide: decide}
+		}, fn.Blocks[0], nil, nil, 64)
+		key := fmt.Sprintf("%s:first byte %q", fnName(fn), rune(sample.b))
+		if why != "" {
+			c.Undecided(R, key, site, why)
+			continue
+		}
+		ok := len(outs) > 0
+		for _, o := range outs {
+			if o.Term != "return" || len(o.Results) != 1 {
+				continue
+			}
+			r := o.Results[0]
+			zero := r.Op == "const" && r.Const != nil && constant.Sign(r.Const) == 0
+			if zero == sample.space {
+				ok = false
+			}
+		}
+		c.Check(ok, R, key, site, fmt.Sprintf("space=%v", sample.space),
+			fmt.Sprintf("for text beginning with the byte %q the space recogniser answers %s, but unicode.IsSpace — which is what ends a bare word — says space=%v: a byte that ends a word and is not skipped leaves the tokenizer at the same place for ever (a projection containing \\v or \\f never finishes parsing)", rune(sample.b), map[bool]string{true: "\"not a space\"", false: "\"a space\""}[sample.space], sample.space))
+	}
+}
